@@ -356,3 +356,50 @@ func H_C11_meta() {
 	}
 	vCover("ran")
 }
+
+func init() { vHarnesses["H_C11_ids_hybrid"] = H_C11_ids_hybrid }
+
+// automatically generated ids through the hybrid index's Add, on two index instances used from two goroutines, one
+// of which also has Adds REJECTED (wrong dimension, a metadata value of an unsupported type): every id handed to a
+// successful Add is different from every other, whatever the interleaving
+func H_C11_ids_hybrid() {
+	f1, _ := NewFlatIndex(1, L2Squared)
+	f2, _ := NewFlatIndex(1, L2Squared)
+	h1 := NewHybridSearchIndex(f1, NewBM25SearchIndex(), NewRoaringMetadataIndex())
+	h2 := NewHybridSearchIndex(f2, nil, nil)
+	var got []uint32
+	var errs [2]error
+	reject := vChoose("rejected_by", 2)
+	vPar(3, func() {
+		id, err := h1.Add([]float32{1}, "fox", nil)
+		vAssert(err == nil, "add-ok")
+		got = append(got, id)
+		if reject == 0 {
+			_, errs[0] = h1.Add([]float32{1, 2}, "dog", nil) // wrong dimension
+		} else {
+			_, errs[0] = h1.Add([]float32{3}, "dog", map[string]interface{}{"c": []int{1}}) // unsupported metadata value
+		}
+		id2, err2 := h1.Add([]float32{2}, "cat", nil)
+		vAssert(err2 == nil, "add-ok")
+		got = append(got, id2)
+	}, func() {
+		id, err := h2.Add([]float32{5}, "", nil)
+		vAssert(err == nil, "add-ok")
+		id2, err2 := h2.Add([]float32{6}, "", nil)
+		vAssert(err2 == nil, "add-ok")
+		got = append(got, id, id2)
+	})
+	vAssert(errs[0] != nil, "bad-add-is-rejected")
+	vAssert(len(got) == 4, "four-successful-adds")
+	for i := range got {
+		for j := 0; j < i; j++ {
+			vAssert(got[i] != got[j], "ids-unique-across-goroutines-and-instances")
+		}
+	}
+	// and the four documents are all findable under the ids they were given
+	r1, e1 := h1.NewSearch().WithVector([]float32{0}).WithK(10).Execute()
+	r2, e2 := h2.NewSearch().WithVector([]float32{0}).WithK(10).Execute()
+	vAssert(e1 == nil && e2 == nil, "search-ok")
+	vAssert(len(r1) == 2 && len(r2) == 2, "each-instance-holds-its-two-documents")
+	vCover("ran")
+}
